@@ -329,6 +329,20 @@ open SqlglotModel.Bag in
 def scalarDecorrelated (proj : Table → Val) (fallback : Val) (on : Row → Row → B3) (a : Row) (r : Table) : Val :=
   coalesceVal (if (matchesOf on a r).isEmpty then Val.null else proj (matchesOf on a r)) fallback
 
+-- ------------------------------------------------------------------------------------------ pushdown_projections
+/-- the disjuncts of the `if` that sets `parent_selections = {SELECT_ALL}` (no column may be pruned) -/
+inductive ProjAtom where
+  | distinct | intersectExcept | selfRefCte
+  deriving DecidableEq, Repr
+
+-- ------------------------------------------------------------------------------------------ eliminate_subqueries / eliminate_ctes
+/-- a WITH list as (name, names it references); SQL requires every reference to point at an EARLIER entry -/
+def wellScopedFrom (seen : List String) : List (String × List String) → Bool
+  | [] => true
+  | (n, refs) :: rest => refs.all (fun r => seen.contains r) && wellScopedFrom (n :: seen) rest
+
+def wellScoped (ctes : List (String × List String)) : Bool := wellScopedFrom [] ctes
+
 -- ------------------------------------------------------------------------------------------ pipeline
 /-- a rule is a function on queries; `Preserves sem r` = it never changes what a query returns -/
 def Preserves {Q R : Type} (sem : Q → R) (r : Q → Q) : Prop := ∀ q, sem (r q) = sem q
